@@ -930,6 +930,11 @@ Proof.
     destruct ids as [|g [|g2 r]]; try exact R. destruct (do_shift_left (sz s) (rel s) (gget s u (Z.to_nat g)) x a). cbn [fst]. rsame s R.
   - destruct (vmux s u); [|exact R]. unfold step_mux_shift. destruct (ugids s u x) as [ids|]; [|exact R].
     destruct ids as [|g [|g2 r]]; try exact R. destruct (do_shift_right (sz s) (rel s) (mux_gsize s u) (gget s u (Z.to_nat g)) x a). cbn [fst]. rsame s R.
+  - destruct (vmsg s m); [|exact R]. unfold step_resize_bus. destruct (bytes <? 0); [exact R|]. destruct (gbytes s m =? bytes); [exact R|].
+    destruct (2 ^ 60 - 1 <? bytes); [exact R|]. destruct (lim <? bytes); [exact R|].
+    unfold step_resize. destruct (bytes <? 0); [exact R|]. destruct (gbytes s m =? bytes); [exact R|].
+    destruct (2 ^ 60 - 1 <? bytes); [exact R|]. destruct (verify_resize (sz s) (rel s) (glsize s m) (glay s m) (bytes * 8)); [exact R|]. cbn [fst]. rsame s R.
+  - destruct (vsig s x); exact R.
 Qed.
 
 Lemma invr_init : InvR init.
